@@ -218,7 +218,7 @@ Proof.
   destruct (connect_flag_bits clean w user pass Hwq) as (B0 & B1 & B2 & BQ & B5 & B6 & B7 & _).
   unfold decode_body, enc_body. type_tests 1. change (0 =? 0) with true. cbv iota.
   unfold dec_connect. cbn [app].
-  assert ((if is_v5 v then 5 else 4) =? (if is_v5 v then 5 else 4) = true) as -> by apply N.eqb_refl.
+  match goal with |- context [nlist_eqb ?a ?b] => assert (nlist_eqb a b = true) as -> by (apply nlist_eqb_eq; reflexivity) end.
   cbn [negb]. rewrite B0, B1, B2, B5, B6, B7, BQ.
   rewrite u16_roundtrip by lia. cbn [obind].
   rewrite (vprops_roundtrip v L_CONNECT ps _ Hps). cbn [obind].
